@@ -235,7 +235,10 @@ def fit_int(st, t, ct, from_unsigned_bytes=False):
         # nesting byte lanes of ever larger terms; equal terms give the same atom
         lo_, hi_ = ct.minmax()
         import hashlib
-        return ('sym', 'wrapped:' + hashlib.sha1(repr(t).encode()).hexdigest()[:12], lo_, hi_)
+        nm_ = 'wrapped:' + hashlib.sha1(repr(t).encode()).hexdigest()[:12]
+        from . import terms as _terms
+        _terms.OPAQUE_DEFS.setdefault(nm_, t)
+        return ('sym', nm_, lo_, hi_)
     if not ct.signed:
         return u
     s = mk_sext(u, n)
